@@ -13,7 +13,7 @@ import os, re, math, json, concurrent.futures, pv
 PROP = 'C22'
 LEAN_MODULE = 'ParsecVerif.Props.C22'
 DRIVERS = ['pv_C22']
-THEOREMS = ['ParsecVerif.C22.apply_exactly_once', 'ParsecVerif.C22.apply_uplo_arg',
+THEOREMS = ['ParsecVerif.C22.apply_exactly_once', 'ParsecVerif.C22.reduce_col_edges_match', 'ParsecVerif.C22.apply_uplo_arg',
             'ParsecVerif.C22.map_never_twice', 'ParsecVerif.C22.map_exactly_once', 'ParsecVerif.C22.map_global',
             'ParsecVerif.C22.reduce_schedule_fold', 'ParsecVerif.C22.reduce_schedule_deterministic',
             'ParsecVerif.C22.reduce_jdf_partial', 'ParsecVerif.C22.reduce_jdf_in_bounds_odd',
@@ -288,6 +288,46 @@ def reduce_deps_line(tasks, env, space):
     return ' '.join(items)
 
 
+def colrow_deps_line(tasks, leaf, inner, env, depth):
+    """edges of reduce_col.jdf / reduce_row.jdf for column 0 as the text says, in the driver's format"""
+    lp, ip = tasks[leaf]['params'], tasks[inner]['params']
+    lf = parse_deps(tasks[leaf]['decl'])[0]
+    fl = {f[1]: f for f in parse_deps(tasks[inner]['decl'])}
+
+    def ins(flow, e):
+        for d, cond, tt, tf in flow[2]:
+            if d != '<-':
+                continue
+            if cond is None or cond.ev(e):
+                v = eval_target(tt, e)
+            elif tf is not None:
+                v = eval_target(tf, e)
+            else:
+                continue
+            return v.split(':', 1)[1] if ':' in v else v
+        return 'NONE'
+
+    def outs(flow, e):
+        o = []
+        for d, cond, tt, tf in flow[2]:
+            if d != '->':
+                continue
+            if cond is None or cond.ev(e):
+                o.append(eval_target(tt, e))
+            elif tf is not None:
+                o.append(eval_target(tf, e))
+        return '+'.join(o)
+    items = []
+    for r in range(1 << depth):
+        e = dict(env); e[lp[0]] = r; e[lp[1]] = 0
+        items.append('in%d:%s' % (r, outs(lf, e)))
+    for lv in range(1, depth + 1):
+        for i in range(1 << (depth - lv)):
+            e = dict(env); e[ip[0]] = lv; e[ip[1]] = i; e[ip[2]] = 0
+            items.append('%d,%d:Rbottom=%s;Rtop=%s;out=%s' % (lv, i, ins(fl['Rbottom'], e), ins(fl['Rtop'], e), outs(fl['Rtop'], e)))
+    return ' '.join(items)
+
+
 def jdf_frontend(ctx, res, dist):
     """enumerate the task spaces the .jdf text describes and compare with the model's index sets"""
     ops, impl = [], []
@@ -320,6 +360,9 @@ def jdf_frontend(ctx, res, dist):
                 impl.append(reduce_deps_line(rt, env, sp))
         for fname, leaf, inner in (('reduce_col.jdf', 'reduce_in_col', 'reduce_col'), ('reduce_row.jdf', 'reduce_in_row', 'reduce_row')):
             cg, ct = parse_jdf(os.path.join(JDF_DIR, fname))
+            for depth in range(0, 4 if ctx.quick else 6):
+                ops.append('deps %s %d' % (inner, depth))
+                impl.append(colrow_deps_line(ct, leaf, inner, {'depth': depth, 'IA': 0, 'JA': 0, 'M': (1 << depth) - 1, 'N': 0}, depth))
             for mt in (1, 2, 3, 4, 5, 8, 9, 16):
                 for (IA, JA, M, N) in ((0, 0, mt - 1, 2), (0, 0, 2, mt), (1, 1, 3, 2), (0, 2, 1, 1)):
                     env = {'src->mt': mt, 'IA': IA, 'JA': JA, 'M': M, 'N': N}
@@ -374,6 +417,11 @@ def oracle_apply(op, r):
                 return 'tile (%d,%d) of the %s region: operator invoked %s' % (m, n, {121: 'upper', 122: 'lower', 123: 'full'}[uplo], 'never' if c == '.' else c + ' times')
             if not want and c != '.':
                 return 'tile (%d,%d) outside the requested region was visited (%s)' % (m, n, c)
+            # element level: on a diagonal tile of a triangular region only that triangle belongs to the region, so the
+            # operator must be told so; every other tile belongs to the region entirely
+            if want and c != ('F' if (m != n or uplo == 123) else {121: 'U', 122: 'L'}[uplo]):
+                return 'tile (%d,%d): the operator was told to work on part %s of the tile, the requested region contains %s' % (
+                    m, n, c, 'the whole tile' if (m != n or uplo == 123) else 'only its %s triangle' % {121: 'upper', 122: 'lower'}[uplo])
     return None
 
 
